@@ -21,7 +21,7 @@ GLOBAL_OVERRIDES: dict[str, dict[str, object]] = {}  # relpath -> {global name: 
 INLINE_DENY: set[str] = set()
 
 
-class ContractError(Exception):
+class ContractError(BaseException):
     """A contract or spec function is itself broken (checker error, never a violation)."""
 
 
@@ -632,7 +632,7 @@ def verify_function(con: Contract) -> FnReport:
                 c.data["result"] = result
             except PathEnd:
                 outcome = ("cut", None)
-            except (Infeasible, Unsupported):
+            except (Infeasible, Unsupported, ContractError):
                 raise
             except RecursionError:
                 raise Unsupported("recursion limit") from None
